@@ -226,6 +226,12 @@ FIXED = [
     ("INT X=5 FUNCTION F(A=2){ INT X=A+1 X=X+1 Result=X } PRINT(F()) PRINT(X)", "(((fn F ((A 2)) ((decl X (b 3 A 1)) (assign X (b 3 X 1)) (assign Result X)))) ((decl X 5) (print (call F ())) (print X)))"),
 ]
 
+SPELL = {"CONTINUE": ["Continue"], "BREAK": ["Break", "EXIT", "Exit"], "RETURN": ["Return"], "FOR": ["For"], "WHILE": ["While"], "IF": ["If"], "PRINT": ["Print"],
+         "INT": ["Int"], "FUNCTION": ["Function"]}
+def respell(rng, src):
+    """the other spellings of the script words (every word of the command table has an upper-case and a capitalised entry, BREAK also EXIT)"""
+    return re.sub(r"\b(CONTINUE|BREAK|RETURN|FOR|WHILE|IF|PRINT|INT|FUNCTION)\b", lambda m_: rng.choice(SPELL[m_.group(1)] + [m_.group(1)]), src)
+
 def streams(tier, rng, P, only=None, cases=None):
     big = tier == "thorough"
     def mk():
@@ -233,6 +239,7 @@ def streams(tier, rng, P, only=None, cases=None):
         n = 8000 if big else 1000
         for i in range(n):
             src, sx, nt_ = gen_case(rng)
+            if i % 3 == 2: src = respell(rng, src)
             cs.append(dict(req="run " + hx(src), src=src, show=src, sexp=sx, nt=nt_, key="s%d" % i))
         for j, (src, sx) in enumerate(FIXED):
             cs.append(dict(req="run " + hx(src), src=src, show=src, sexp=sx, nt=1, key="fixed%d" % j))
